@@ -16,6 +16,7 @@ RULE = ("bounded-exhaustive enumeration of format specifications: every subset o
         "with EVERY buffer size 0..len+1 in a guard zone; gmp_asprintf block size; gmp_sprintf; gmp_sscanf reading back every produced "
         "string with the matching conversion, field counts and %n. distinct_nontrivial = distinct (format specification class, value "
         "class) tuples.")
+RULE = RULE + (" " + "Later additions: %#Q; %Ff on large values against exact expansions; fields wider than 256 bytes through every entry point; every standard-run length 1..1152 through vasprintf/vsnprintf; obstack objects crossing chunk boundaries; gmp_sscanf against the C library's sscanf (count, stored values, %n) on prefixes and foreign characters; %Fg/%FG against libc; * width/precision incl. negative; %n family; hexadecimal floats by value; every length modifier of standard conversions around MPIR conversions.")
 ASSUMPTIONS = ["the C library's snprintf on the same format with the l length modifier is the reference for values fitting a long; a Python "
                "transcription of C's integer layout rules (self-checked against libc in every run) for larger values",
                "combinations C leaves undefined (# with d/i, + or space with o/x/X, precision with %Q, bare '.') and inputs the output "
